@@ -178,6 +178,7 @@ func genTraitMetadata(rng *vk.Rand) *traits.TraitMetadata {
 }
 
 func scribbleMetadata(md *traits.Metadata) {
+	vk.PokeThroughPointers(md)
 	md.Name = "scribbled"
 	if md.Appearance != nil {
 		md.Appearance.Title = "scribbled"
@@ -338,6 +339,7 @@ func enterLeaveDriver(g *modelRig, rng *vk.Rand, steps int) {
 			in := &traits.EnterLeaveEvent{Direction: traits.EnterLeaveEvent_Direction(rng.Range(0, 2)), Occupant: &traits.EnterLeaveEvent_Occupant{Name: rng.PickStr("o1", "o2")}}
 			_ = m.CreateEnterLeaveEvent(in)
 			g.verify("CreateEnterLeaveEvent")
+			vk.PokeThroughPointers(in) // the totals are optional scalars: written through the pointers the event now carries
 			in.Occupant.Name = "scribbled"
 			g.verify("input-aliased/CreateEnterLeaveEvent")
 		case 3:
@@ -404,6 +406,7 @@ func electricDriver(g *modelRig, rng *vk.Rand, steps int) {
 				g.observe("result:CreateMode", md)
 			}
 			g.verify("CreateMode")
+			vk.PokeThroughPointers(in)
 			in.Title = "scribbled"
 			in.Segments[0].Magnitude = 4242
 			g.verify("input-aliased/CreateMode")
@@ -426,6 +429,7 @@ func electricDriver(g *modelRig, rng *vk.Rand, steps int) {
 				g.observe("result:UpdateMode", md)
 			}
 			g.verify("UpdateMode")
+			vk.PokeThroughPointers(in)
 			in.Title = "scribbled"
 			in.Segments[0].Magnitude = 4242
 			g.verify("input-aliased/UpdateMode")
